@@ -70,14 +70,34 @@ func vThresholdCase(set, n, t int, points []uint64, tag string) {
 	for j := 0; j < n; j++ {
 		tsk[j] = th.Thr[j].AllocateThresholdSecretShare()
 	}
+	shares := make([][]ShamirSecretShare, n) // shares[j][i]: share of party i's polynomial for party j
+	for j := range shares {
+		shares[j] = make([]ShamirSecretShare, n)
+	}
 	for i := 0; i < n; i++ {
 		poly, err := th.Thr[i].GenShamirPolynomial(t, c.Parties[i].Sk)
 		vAssert(err == nil, tag+"-GenShamirPolynomial-no-error")
 		for j := 0; j < n; j++ {
-			sh := th.Thr[i].AllocateThresholdSecretShare()
-			th.Thr[i].GenShamirSecretShare(ShamirPublicPoint(points[j]), poly, &sh)
-			vAssert(th.Thr[j].AggregateShares(tsk[j], sh, &tsk[j]) == nil, tag+"-AggregateShares-no-error")
+			shares[j][i] = th.Thr[i].AllocateThresholdSecretShare()
+			th.Thr[i].GenShamirSecretShare(ShamirPublicPoint(points[j]), poly, &shares[j][i])
 		}
+	}
+	// aggregation in every shape: accumulator in place (even parties), fresh outputs with the running aggregate as the
+	// SECOND operand and in reverse order (odd parties)
+	for j := 0; j < n; j++ {
+		if j%2 == 0 || n == 1 {
+			for i := 0; i < n; i++ {
+				vAssert(th.Thr[j].AggregateShares(tsk[j], shares[j][i], &tsk[j]) == nil, tag+"-AggregateShares-no-error")
+			}
+			continue
+		}
+		acc := shares[j][n-1]
+		for i := n - 2; i >= 0; i-- {
+			out := th.Thr[j].AllocateThresholdSecretShare()
+			vAssert(th.Thr[j].AggregateShares(shares[j][i], acc, &out) == nil, tag+"-AggregateShares-into-a-fresh-output-no-error")
+			acc = out
+		}
+		tsk[j] = acc
 	}
 	// every t-subset in every order
 	for _, sub := range vSubsets(n, t) {
